@@ -18,6 +18,7 @@ package scripted
 
 import (
 	"context"
+	"errors"
 	"fmt"
 	"sort"
 	"sync"
@@ -160,6 +161,7 @@ type Check struct {
 	failOn            []string
 	actions           map[string]*modconfig.FailAction
 	rcptOnly          string
+	raw               map[string]*string // stage -> "" | "rq" | "rqp": raw combined result, not through Apply
 }
 
 var checkStages = []string{"conn", "sender", "rcpt", "body"}
@@ -168,7 +170,8 @@ func NewCheck(modName, instName string, _, inlineArgs []string) (module.Module, 
 	if len(inlineArgs) != 0 {
 		return nil, fmt.Errorf("%s: inline arguments are not used", modName)
 	}
-	return &Check{modName: modName, instName: instName, actions: map[string]*modconfig.FailAction{}}, nil
+	return &Check{modName: modName, instName: instName, actions: map[string]*modconfig.FailAction{},
+		raw: map[string]*string{}}, nil
 }
 
 func (c *Check) Init(cfg *config.Map) error {
@@ -183,6 +186,11 @@ func (c *Check) Init(cfg *config.Map) error {
 		cfg.Custom(st+"_action", false, false, func() (interface{}, error) {
 			return modconfig.FailAction{Reject: true}, nil
 		}, modconfig.FailActionDirective, a)
+		// <stage>_raw rq|rqp: the check sets Reject and Quarantine itself (as check.milter does for a
+		// quarantine action followed by reject/tempfail); rq: the Reason carries an SMTP code, rqp: plain error
+		r := new(string)
+		c.raw[st] = r
+		cfg.String(st+"_raw", false, false, "", r)
 	}
 	if _, err := cfg.Process(); err != nil {
 		return err
@@ -241,7 +249,16 @@ func (s *checkState) do(stage, addr string) module.CheckResult {
 	}
 	res := module.CheckResult{}
 	v := "none"
-	if fails {
+	if fails && *c.raw[stage] != "" {
+		v = *c.raw[stage]
+		res = module.CheckResult{Reject: true, Quarantine: true}
+		if v == "rq" {
+			res.Reason = &exterrors.SMTPError{Code: 550, EnhancedCode: exterrors.EnhancedCode{5, 7, 1},
+				Message: "scripted check " + c.id + " quarantined and rejected at " + stage, CheckName: "verif_scripted"}
+		} else {
+			res.Reason = errors.New("scripted check " + c.id + " quarantined and rejected at " + stage)
+		}
+	} else if fails {
 		act := *c.actions[stage]
 		v = verdictName(act)
 		// what maddy's checks do: report the failure, let the configured action decide
